@@ -655,7 +655,7 @@ impl Prop for C01 {
         (
             0..6_u8,
             prop_oneof![
-                3 => prop::sample::select(vec![8_usize, 9, 11, 16]),
+                3 => prop::sample::select(vec![8_usize, 9, 11, 16, 8, 9, 11, 16, 65, 66]),
                 7 => 1_usize..=max_order,
             ],
             (any::<u8>(), any::<u8>(), any::<u64>()),
